@@ -22,6 +22,8 @@ func c15(c *eng.Ctx, r *eng.Report) {
 		"R15.4 round2 verifies both recovered signatures under the group key before the block is handed to the chain; " +
 		"R15.6 an early verify message is parked for replay whatever it claims — no condition derived from the unverified message guards the parking; " +
 		"R15.5 SignInfo.VerifySign consults no process-local state (its verdict depends only on key, hash and signature). " +
+		"R15.7 before a share has been verified, the only things about the message that decide whether it will be are the reviewed ones (it is a verify message, the sender's key is known, its data hash is this block's): no other branch on message content — in particular none on state keyed by the unauthenticated signer id — stands between a share and its verification; " +
+		"R15.8 the key a member's shares are verified under is bound once: the stored share public key is written only on the not-yet-stored edge (first announcement wins; an announcement is only self-signed, so a later one naming the same member proves nothing), and only AddMemberSignPk writes it. " +
 		"Not decided: recovery correctness (C13), network-level behaviour."
 	r.Assume = []string{"groupsig.VerifySig is sound (C14)", "SignInfo.VerifySign(pk) = VerifySig(pk, dataHash, signature)"}
 	c15Round1(c, r)
@@ -30,6 +32,8 @@ func c15(c *eng.Ctx, r *eng.Report) {
 	c15Round2(c, r)
 	c15Purity(c, r)
 	c15Parking(c, r)
+	c15PreVerifyBranches(c, r)
+	c15KeyBinding(c, r)
 }
 
 // c15Parking: a verify message that arrives before its party exists is parked
@@ -336,4 +340,149 @@ func c15Round2(c *eng.Ctx, r *eng.Report) {
 		}
 	}
 	r.Check(ok, rule, "round2.Start:verify-before-chain", c.Pos(start.Pos()), "the block is handed to the chain only after checkSignature returned nil", "round2 adds the block to the chain without (or before) checking the recovered signatures")
+}
+
+// c15PreVerifyBranches: in round1.Update, a branch taken on what the message
+// says, with the share verification reachable on one side only, decides whether
+// a member's share is ever looked at. The signer id is an unauthenticated wire
+// field: whoever can make such a branch go the wrong way for an id silences
+// that member without forging anything.
+func c15PreVerifyBranches(c *eng.Ctx, r *eng.Report) {
+	const rule = "R15.7"
+	r.Min(rule, 1)
+	fn := c.Func("consensus/logical", "(*round1).Update")
+	if !r.Anchor(fn != nil, rule, "(*round1).Update") {
+		return
+	}
+	var msg *ssa.Parameter
+	for _, p := range fn.Params {
+		if p.Name() == "msg" {
+			msg = p
+		}
+	}
+	verifies := callsNamed(fn, ".VerifySign")
+	if msg == nil || len(verifies) == 0 {
+		r.Fail(rule, "round1.Update:pre-verify-branches", c.Pos(fn.Pos()), "round1.Update no longer has a msg parameter / a VerifySign call: the share check has moved and must be re-reviewed")
+		return
+	}
+	target := verifies[0].Block()
+	reach := func(from *ssa.BasicBlock) bool {
+		seen := map[*ssa.BasicBlock]bool{}
+		var walk func(b *ssa.BasicBlock) bool
+		walk = func(b *ssa.BasicBlock) bool {
+			if b == target {
+				return true
+			}
+			if seen[b] {
+				return false
+			}
+			seen[b] = true
+			for _, x := range b.Succs {
+				if walk(x) {
+					return true
+				}
+			}
+			return false
+		}
+		return walk(from)
+	}
+	// the reviewed deciders
+	reviewed := func(cond ssa.Value) bool {
+		d := eng.Desc(cond)
+		switch {
+		case strings.Contains(d, ".(*consensus/model.ConsensusVerifyMessage)") && !strings.Contains(d, "["):
+			return true // msg is a verify message
+		case strings.Contains(d, "GetMemberSignPubKey(") && !strings.Contains(d, "["):
+			return true // the sender's key is known
+		case strings.Contains(d, "GetDataHash()") && !strings.Contains(d, "["):
+			return true // the share is over this block's hash
+		}
+		return false
+	}
+	bad := ""
+	n := 0
+	for _, b := range fn.Blocks {
+		iff, isIf := b.Instrs[len(b.Instrs)-1].(*ssa.If)
+		if !isIf || b == target || target.Dominates(b) && b != target {
+			continue
+		}
+		if !deepDerives(iff.Cond, msg) {
+			continue
+		}
+		if reach(b.Succs[0]) == reach(b.Succs[1]) {
+			continue
+		}
+		n++
+		if !reviewed(iff.Cond) {
+			bad = eng.Desc(iff.Cond) + " (" + c.Pos(iff.Pos()) + ")"
+		}
+	}
+	r.Check(bad == "" && n >= 2, rule, "round1.Update:pre-verify-branches", c.Pos(fn.Pos()), fmt.Sprintf("%d message-dependent branches stand before the share verification, all reviewed (message type, key known, data hash)", n), "round1.Update decides on "+bad+" whether a share is verified at all: that condition depends on the unverified message (its claimed signer id), so a faulty member can pre-file junk naming honest members and their genuine shares are skipped — the threshold is never reached and the block does not finalise")
+}
+
+// deepDerives: like valueDerivesFromValue but deeper and through map lookups,
+// calls and extracts (conditions on state keyed by message fields).
+func deepDerives(a, b ssa.Value) bool {
+	seen := map[ssa.Value]bool{}
+	var walk func(v ssa.Value, d int) bool
+	walk = func(v ssa.Value, d int) bool {
+		if v == nil || d > 12 || seen[v] {
+			return false
+		}
+		seen[v] = true
+		if v == b {
+			return true
+		}
+		if in, ok := v.(ssa.Instruction); ok {
+			var ops []*ssa.Value
+			for _, o := range in.Operands(ops) {
+				if *o != nil && walk(*o, d+1) {
+					return true
+				}
+			}
+		}
+		return false
+	}
+	return walk(a, 0)
+}
+
+// c15KeyBinding: first announcement wins.
+func c15KeyBinding(c *eng.Ctx, r *eng.Report) {
+	const rule = "R15.8"
+	r.Min(rule, 2)
+	setter := c.Func("consensus/model", "(*JoinedGroupInfo).AddMemberSignPK")
+	if !r.Anchor(setter != nil, rule, "(*JoinedGroupInfo).AddMemberSignPK") {
+		return
+	}
+	n := 0
+	for _, site := range c.Callers(setter) {
+		if c.IsTestFunc(site.Fn) {
+			continue
+		}
+		n++
+		fn := site.Fn
+		key := "key-binding:" + eng.FuncName(fn)
+		if eng.FuncName(fn) != "(*consensus/access.JoinedGroupStorage).AddMemberSignPk" {
+			r.Fail(rule, key, c.Pos(site.Pos()), eng.FuncName(fn)+" writes a member's share public key: only JoinedGroupStorage.AddMemberSignPk (first announcement wins) is reviewed to")
+			continue
+		}
+		// every path to the write crosses the not-stored edge of GetMemberSignPK(sameId)
+		cut := func(a *ssa.BasicBlock, succ int) bool {
+			iff, ok := a.Instrs[len(a.Instrs)-1].(*ssa.If)
+			if !ok {
+				return false
+			}
+			for _, cd := range eng.Conjuncts(iff.Cond, succ == 0, iff) {
+				if ex, isE := cd.V.(*ssa.Extract); isE && ex.Index == 1 && !cd.True {
+					if call, isC := ex.Tuple.(*ssa.Call); isC && strings.HasSuffix(eng.CallName(&call.Call), ".GetMemberSignPK") {
+						return true
+					}
+				}
+			}
+			return false
+		}
+		open := eng.PathToAvoiding(fn, site.Instr, nil, cut)
+		r.Check(!open, rule, key, c.Pos(site.Pos()), "the key is written only when none is stored for that member", "JoinedGroupStorage.AddMemberSignPk can overwrite a stored share public key (a path reaches jg.AddMemberSignPK without the `not stored yet` outcome of GetMemberSignPK): an announcement is only self-signed with the announced key, so any member can re-bind an honest member's id to a key it controls, have a forged share counted under that id and the genuine one dropped as a duplicate — the recovered signature is invalid and the block does not finalise")
+	}
+	r.Check(n >= 1, rule, "key-binding:sites", "", fmt.Sprintf("%d writers", n), "no caller of JoinedGroupInfo.AddMemberSignPK found")
 }
